@@ -731,7 +731,7 @@ func NewVideoPackager() (VideoPackager, error) {
 }
 
 func (v *videoPackager) Decode(tag []byte) (frame *VideoFrame, err error) {
-	if len(tag) < 5 {
+	if len(tag) < 1 {
 		err = errDataNotEnough
 		return
 	}
@@ -742,6 +742,11 @@ func (v *videoPackager) Decode(tag []byte) (frame *VideoFrame, err error) {
 	frame.CodecID = VideoCodec(byte(p[0]) & 0x0f)
 
 	if frame.CodecID == VideoCodecAVC || frame.CodecID == VideoCodecHEVC {
+		// Only AVC and HEVC have the trait and CTS after the video tag header.
+		if len(tag) < 5 {
+			return nil, errDataNotEnough
+		}
+
 		frame.Trait = VideoFrameTrait(p[1])
 		frame.CTS = int32(uint32(p[2])<<16 | uint32(p[3])<<8 | uint32(p[4]))
 		frame.Raw = tag[5:]
